@@ -74,6 +74,18 @@ def min_image_dist(cell, inv, a, b):
     return best
 
 
+CELL_KINDS = ["ortho", "tric+", "tric-", "tric", "big", "upper", "rotated", "mono-yz", "mono-xz", "mono-xy", "rot-ortho"]
+# exact rotations (rational matrices with denominators 5 and 13) and axis permutations: a box rotated by one of them keeps all its
+# angles at exactly 90 degrees and stays on the grid when its edge lengths are multiples of 65 grid units
+_R = {
+    "z345": [[3 / 5, -4 / 5, 0], [4 / 5, 3 / 5, 0], [0, 0, 1]],
+    "x51213": [[1, 0, 0], [0, 5 / 13, -12 / 13], [0, 12 / 13, 5 / 13]],
+    "y345": [[3 / 5, 0, 4 / 5], [0, 1, 0], [-4 / 5, 0, 3 / 5]],
+    "perm": [[0, 1, 0], [0, 0, 1], [1, 0, 0]],
+    "flip": [[-1, 0, 0], [0, -1, 0], [0, 0, 1]],
+}
+
+
 def make_cell(rng, need, kind):
     """cell rows (floats on the grid) whose perpendicular widths exceed `need`"""
     for _ in range(200):
@@ -87,6 +99,19 @@ def make_cell(rng, need, kind):
                 s = sgn if sgn is not None else rng.choice([-1, 1])
                 cell[i, j] = s * rng.uniform(0.05, 0.45) * L[j]
             cell = cell * 1.35
+        if kind in ("mono-xy", "mono-xz", "mono-yz"):
+            # exactly one non-zero tilt factor, either sign (LAMMPS xy = cell[1,0], xz = cell[2,0], yz = cell[2,1])
+            i, j = {"mono-xy": (1, 0), "mono-xz": (2, 0), "mono-yz": (2, 1)}[kind]
+            L[j] += rng.uniform(3, 8)
+            cell = np.diag(L)
+            cell[i, j] = rng.choice([-1, 1]) * rng.uniform(0.35, 0.6) * L[j]
+            cell = cell * 1.2
+        if kind == "rot-ortho":
+            Lg = np.array([round(x * 1.1 * G / 65) * 65 for x in L], float) / G
+            R = np.eye(3)
+            for nm in rng.sample(sorted(_R), rng.randint(1, 2)):
+                R = np.array(_R[nm]) @ R
+            cell = np.diag(Lg) @ R.T
         if kind == "upper":
             # tilt in the upper triangle: a = (Lx, t, t'), b = (0, Ly, t''), c = (0, 0, Lz)
             cell = np.diag(L)
@@ -148,7 +173,7 @@ def make_case(rng, k, flavor="mixed", pattern=None, big=None):
     tol = float(atol)
     need = diam + 2 * tol
     sep = diam + 2 * tol + 0.3          # distinct groups are farther apart than this: no cross-group candidates
-    ckind = ["ortho", "tric+", "tric-", "tric", "big", "upper", "rotated"][(k // 3) % 7] if big is None else ("big" if big else "tric")
+    ckind = CELL_KINDS[(k // 3) % len(CELL_KINDS)] if big is None else ("big" if big else "tric")
     need_cell = max(need, sep + 0.2 if n == 1 else need)
     if flavor in ("mixed", "decoys") and n > 1:
         # a near-miss decoy (one atom displaced by up to 8 atol) must not form a genuine occurrence with its own periodic images
@@ -157,11 +182,13 @@ def make_case(rng, k, flavor="mixed", pattern=None, big=None):
     inv = np.linalg.inv(cell)
     pos, els, planted, decoys = [], [], [], []
     ncopies = rng.randint(1, 3) if ckind != "big" else rng.randint(1, 4)
+    if flavor == "shuffled":
+        ncopies = rng.randint(2, 4)
     crossing = []
     last_offs = []
     planted_offs = []
 
-    def try_add(points, elements, far_from_origin=False, forced_q=None, corner=None, stretch=False):
+    def try_add(points, elements, far_from_origin=False, forced_q=None, corner=None, stretch=False, shear=None):
         for attempt in range(60):
             pose = rng.choice(["random", "random", "axis"])
             q = rand_quat(rng, pose)
@@ -188,6 +215,18 @@ def make_case(rng, k, flavor="mixed", pattern=None, big=None):
                 fr0 = np.array([0.003 if b == 0 else 0.997 for b in corner])
                 first = (points @ qrot(q).T)[0]
                 fr = fr0 - first @ inv
+            if shear is not None:
+                # single-tilt cell, tilt t = cell[i, j]: put the copy into the part of the sheared cell that sticks out of the axis-aligned
+                # box spanned by diag(cell) by more than the pattern's length (coordinate j = f_j L_j + f_i t)
+                si, sj = shear
+                t, Lj = cell[si, sj], cell[sj, sj]
+                fr = np.array([rng.random() for _ in range(3)])
+                fr[si] = rng.uniform(0.7, 0.97)
+                if t < 0:
+                    fr[sj] = rng.uniform(0.01, max(0.03, (fr[si] * abs(t) - need - 0.2) / Lj))
+                else:
+                    fr[sj] = rng.uniform(min(0.97, 1 + (need + 0.2 - fr[si] * t) / Lj), 0.99)
+                fr = fr - (points @ qrot(q).T).mean(axis=0) @ inv
             cand = points @ qrot(q).T + grid(fr @ cell)
             if stretch and len(points) > 1:
                 # stretch the (unwrapped) copy along its longest pair by 0.8 atol: every atom stays inside the tolerance of the fit
@@ -211,7 +250,10 @@ def make_case(rng, k, flavor="mixed", pattern=None, big=None):
         corner = None
         if flavor == "corners" and c == 0:
             corner = (0, 0, 0) if rng.random() < 0.34 else tuple(rng.randrange(2) for _ in range(3))
-        r = try_add(pp, el, far_from_origin=(ckind == "big" and c == 0 and corner is None), forced_q=forced_q, corner=corner, stretch=(flavor == "stretched"))
+        shear = None
+        if ckind.startswith("mono-") and corner is None and forced_q is None and c < 2 and rng.random() < 0.8:
+            shear = {"mono-xy": (1, 0), "mono-xz": (2, 0), "mono-yz": (2, 1)}[ckind]
+        r = try_add(pp, el, far_from_origin=(ckind == "big" and c == 0 and corner is None), forced_q=forced_q, corner=corner, stretch=(flavor == "stretched"), shear=shear)
         if r is None:
             continue
         cw, nimg, pose, q = r
@@ -281,6 +323,14 @@ def make_case(rng, k, flavor="mixed", pattern=None, big=None):
                 distract += 1
     if not pos:
         return None
+    if flavor == "shuffled":
+        # interleave the atoms of the copies: the structure's atom order is unrelated to the order of the occurrences
+        perm = list(range(len(pos)))
+        rng.shuffle(perm)
+        newidx = {old: new for new, old in enumerate(perm)}
+        pos = [pos[i] for i in perm]
+        els = [els[i] for i in perm]
+        planted = [tuple(newidx[i] for i in t) for t in planted]
     hints = None
     if n >= 3 and rng.random() < 0.35:
         for _ in range(20):
@@ -305,7 +355,7 @@ def atoms_of(c):
 def run_find(c, seed, S=None, P=None, hints="case"):
     from mofun import find_pattern_in_structure
     if S is None:
-        S, P = atoms_of(c)
+        S, P = atoms_with_history(c)
     pyrandom.seed(seed)
     np.random.seed(seed % (2 ** 32))
     h = c["hints"] if hints == "case" else hints
@@ -315,6 +365,50 @@ def run_find(c, seed, S=None, P=None, hints="case"):
     with quiet(), contextlib.redirect_stdout(io.StringIO()):
         idx, mpos, quats = find_pattern_in_structure(S, P, atol=float(c["atol"]), return_positions_and_quats=True, **kw)
     return [tuple(int(i) for i in m) for m in idx], np.array(mpos), quats
+
+
+def grown_case(c):
+    """the same atoms in a cell enlarged by 1/16 (snapped to the grid).  Copies that crossed a cell face are distorted by 1/16 of a lattice
+    vector - whether they still are occurrences depends on the pattern, so no ground truth is claimed (planted=None: the outputs are judged
+    by the statement and against the model).  The case records that the Atoms object was searched before the enlargement (`pre`)."""
+    cell = grid(np.array(c["cell"], float) * 1.0625)
+    return dict(c, cell=cell, planted=None, planted_offs=[], crossing=[], cellkind=c["cellkind"] + "*17/16",
+                pre={"cell": [list(zv(r)) for r in c["cell"]], "els": list(c["els"])})
+
+
+def restored_case(c):
+    """the case itself, but the Atoms object was searched before while it had an enlarged cell and cyclically shifted elements"""
+    els = list(c["els"])
+    return dict(c, pre={"cell": [list(zv(r)) for r in grid(np.array(c["cell"], float) * 1.0625)], "els": els[1:] + els[:1]})
+
+
+def atoms_with_history(c):
+    """build the structure; when the case records an earlier state (`pre`), build it in that state, search it once, then bring the SAME
+    object to the state the case describes"""
+    from mofun import Atoms, find_pattern_in_structure
+    pre = c.get("pre")
+    if not pre:
+        return atoms_of(c)
+    cell = np.array(c["cell"], float)
+    h = c["hints"]
+    kw = dict(axisp1_idx=h[0], axisp2_idx=h[1], opoint_idx=h[2]) if h is not None else {}
+    with quiet(), contextlib.redirect_stdout(io.StringIO()):
+        P = Atoms(elements=list(c["pel"]), positions=np.array(c["pp"], float))
+        S = Atoms(elements=list(pre["els"]), positions=np.array(c["pos"], float), cell=np.array(pre["cell"], float) / G)
+        st = (pyrandom.getstate(), np.random.get_state())
+        try:
+            find_pattern_in_structure(S, P, atol=float(c["atol"]), return_positions_and_quats=True, **kw)
+        except Exception:    # noqa
+            pass
+        pyrandom.setstate(st[0])
+        np.random.set_state(st[1])
+        fresh = Atoms(elements=list(c["els"]), positions=np.array(c["pos"], float), cell=cell)
+        S.cell = cell
+        S.atom_types = fresh.atom_types.copy()
+        S.atom_type_elements = list(fresh.atom_type_elements)
+        S.atom_type_masses = list(fresh.atom_type_masses)
+        S.atom_type_labels = list(fresh.atom_type_labels)
+    return S, P
 
 
 def zv(v):
@@ -373,11 +467,11 @@ def case_json(c):
     return {"name": c["name"], "els": list(c["els"]), "pos": [list(zv(p)) for p in c["pos"]], "cell": [list(zv(r)) for r in c["cell"]],
             "pel": list(c["pel"]), "pp": [list(zv(p)) for p in c["pp"]], "atol": [c["atol"].numerator, c["atol"].denominator],
             "hints": c["hints"], "planted": c["planted"], "planted_offs": c.get("planted_offs"), "decoys": c["decoys"], "distractors": c["distractors"],
-            "cellkind": c["cellkind"], "crossing": c["crossing"], "k": c["k"], "grid": G}
+            "cellkind": c["cellkind"], "crossing": c["crossing"], "k": c["k"], "grid": G, "pre": c.get("pre")}
 
 
 def case_from_json(j):
     return dict(name=j["name"], tags=[], els=j["els"], pos=np.array(j["pos"], float) / G, cell=np.array(j["cell"], float) / G,
                 pel=j["pel"], pp=np.array(j["pp"], float) / G, atol=Fraction(j["atol"][0], j["atol"][1]),
                 hints=tuple(j["hints"]) if j["hints"] else None, planted=[tuple(g) for g in j["planted"]] if j["planted"] is not None else None,
-                planted_offs=j.get("planted_offs"), decoys=j.get("decoys", []), distractors=j.get("distractors", 0), cellkind=j.get("cellkind", "?"), crossing=j.get("crossing", []), k=j.get("k", 0))
+                planted_offs=j.get("planted_offs"), decoys=j.get("decoys", []), distractors=j.get("distractors", 0), cellkind=j.get("cellkind", "?"), crossing=j.get("crossing", []), k=j.get("k", 0), pre=j.get("pre"))
